@@ -147,6 +147,16 @@ def run(c):
     c.trusted += ["Model/Plan.v + Model/Join.v (shared with C02) as the model of pushdown / INNER-if-filtered; harness/semgen.py + this file render one filter AST to SQL text and to Gallina",
                   "sqlglot's parse/print of a filter inside the generator is an oracle (the harness feeds text); segments, relative-date rewriting and the text-level model.field -> cte.field rewrite are exercised end to end only",
                   "metamorphic relations are checked on the implementation alone (no model involved)"]
+    try:
+        import os
+        from translator import gen_classify
+        lib.write_if_changed(os.path.join(lib.COQ, "Gen", "Classify_gen.v"), gen_classify.generate(lib.REPO))
+        c.obligation("translator: behaviour table of _classify_filters_for_pushdown (141 scripted filter lists, scripted sqlglot) regenerated", True, "translator")
+        same = gen_classify.table(lib.REPO) == gen_classify.real_table(lib.REPO)
+        c.obligation("translator validation: interpreted _classify_filters_for_pushdown == the real method under CPython on the same scripted parse trees", same, "translator")
+    except Exception as e:
+        c.obligation("translator: behaviour table of _classify_filters_for_pushdown regenerated", False, "translator", repr(e)[-900:])
+    c.trusted.append("translator/pyinterp.py + gen_classify.py (fail-closed definitional interpreter; sqlglot's parse trees are scripted: the table covers the method's own logic, not sqlglot's parser)")
     c.build_props()
     n = 120 if c.tier == "quick" else 1500
     cases = [gen_case(c.rng) for _ in range(n)] + [gen_key_case(c.rng) for _ in range(n // 6)]
